@@ -12,12 +12,31 @@ class PathCache:
         self.default = loop_bound
         self._c = {}
 
-    def get(self, fname, loop_bound=None, inline=()):
+    def get(self, fname, loop_bound=None, inline=(), inline_static=False):
         loop_bound = self.default if loop_bound is None else loop_bound
+        if inline_static:
+            inline = set(inline) | static_callees(self.prog, self.eff, fname)
         key = (fname, loop_bound, tuple(sorted(inline)))
         if key not in self._c:
             self._c[key] = P.Executor(self.prog, self.eff, inline=inline, loop_bound=loop_bound).run(fname)
         return self._c[key]
+
+
+def static_callees(prog, eff, fname):
+    """internal (static) functions reachable from fname through direct calls, excluding recursive ones:
+    implementation details that may be inlined so that extract-/inline-helper refactorings do not change a verdict"""
+    out = set()
+    stack = [fname]
+    while stack:
+        x = stack.pop()
+        for c in eff.summ[x]["callees"]:
+            g = prog.funcs.get(c)
+            if g is not None and g.internal and c not in out and c != fname:
+                if c in eff.transitive_callees(c):
+                    continue   # recursive helper: not inlined
+                out.add(c)
+                stack.append(c)
+    return out
 
 
 def base_of(t):
